@@ -129,8 +129,8 @@ def run(ctx, chk):
         bad = None
         n = 0
         for r in rs:
-            if r.status == 'loopback':
-                continue
+            if r.status in ('loopback', 'unreachable'):
+                continue            # (unreachable: the impossible arm of a match on a two-variant Option)
             if r.status != 'ok':
                 bad = 'path %s %s' % (r.status, r.detail)
                 break
